@@ -283,7 +283,7 @@ func c09(args []string) {
 			jobs = append(jobs, &job{s: s, exp: exp, fp: "F", mode: mode, bh: vproto.Behaviours{"F": {"fail": mode, "sleep": "60", "noise": "4000000"}}, cfg: Cfg{Buf: 128, Procs: []int{4, 8}[k%2], NoHooks: k%2 == 1}, idx: -1})
 			// the same with error messages going to a stream of their own (the library's InitLogError) that is read slowly:
 			// the reports of the failures overlap in time
-			jobs = append(jobs, &job{s: s, exp: exp, fp: "F", mode: mode, bh: vproto.Behaviours{"F": {"fail": mode, "sleep": "60", "noise": "4000000"}}, cfg: Cfg{Buf: 128, Procs: []int{4, 8}[k%2], NoHooks: k%2 == 1, Quiet: true, SlowErr: true}, idx: -1})
+			jobs = append(jobs, &job{s: s, exp: exp, fp: "F", mode: mode, bh: vproto.Behaviours{"F": {"fail": mode, "sleep": "60", "noise": "12000000"}}, cfg: Cfg{Buf: 128, Procs: []int{4, 8}[k%2], NoHooks: k%2 == 1, Quiet: true, SlowErr: true}, idx: -1})
 		}
 	}
 	// a task with a streaming output and a file output (whose port name sorts after the stream's) that does not
